@@ -476,7 +476,8 @@ class NodeDef:
         value = self.expression.evaluate(environment)
         if value.isBreak() or value.isContinue() or value.isReturn():
             return value    # an exit, not a value: nothing is defined
-        value.info = self.info
+        if self.info:
+            value.info = self.info
         environment.put(self.identifier, value)
         import ckl.functions
         if isinstance(value, ckl.functions.FuncLambda):
@@ -508,7 +509,8 @@ class NodeDefDestructuring:
                 f"set but got {value.type()}",
                 self.pos,
             )
-        value.info = self.info
+        if self.info:
+            value.info = self.info
         values = None
         if value.isList():
             values = value.value
